@@ -18,7 +18,8 @@ VARIANTS_T = [("verbose", "all"), ("compact", "all"), ("verbose", "user"), ("ver
 
 def _module_job(job):
     import time
-    (mname, src, kind), tier, seed, depth, width, variants = job
+    m_, tier, seed, depth, width, variants = job
+    mname, src, kind = m_[:3]
     res = Result("C14", tier, seed, "translation_validation")
     kf = None
     t0 = time.time()
@@ -35,7 +36,9 @@ def _module_job(job):
             vb.finding_key = f"{mname} compile {level}/{scope}"
             res.add(vb)
             continue
-        for fn in r["Ok"]["functions"]:
+        for fi, fn in enumerate(r["Ok"]["functions"]):
+            if not U.in_chunk(m_, fi):
+                continue
             b = bfns.get(fn["name"])
             if b is None or fn.get("skipped") or not fn.get("post") or not b.get("post") or not U.passes_natively(fn):
                 continue
@@ -61,7 +64,7 @@ def _module_job(job):
 
 def run(tier: str, seed: int, only=None) -> Result:
     res = Result("C14", tier, seed, "translation_validation")
-    depth, width = (2, 2) if tier == "quick" else (3, 3)
+    depth, width = (2, 3) if tier == "quick" else (3, 3)
     variants = VARIANTS_Q if tier == "quick" else VARIANTS_T
     res.assumptions = [
         "uplcsym trusted base (validated against the native evaluator)",
@@ -73,7 +76,7 @@ def run(tier: str, seed: int, only=None) -> Result:
     res.extra["trusted_base"] = ["uplcsym (symbolic CEK)", "driver drv-lang (real compiler)", "z3 5.1"]
     kf = KnownFindings()
     mods = [m for m in U.corpus(tier, seed) if not only or only in m[0]]
-    U.merge(res, U.pmap(_module_job, [(m, tier, seed, depth, width, variants) for m in mods]))
+    U.merge(res, U.pmap(_module_job, [(m, tier, seed, depth, width, variants) for m in U.chunked(mods)]))
     res.extra.setdefault("programs", 0)
     res.extra.setdefault("disagreements_checked", 0)
     from props import common_post
